@@ -27,7 +27,7 @@ ASSUMPTIONS = ['a name defined only by two inner levels has no documented preced
                'at most one instance of a unique middleware type per list (O5)']
 REQUIRED_REACH = ['depth:2', 'depth:3', 'shadow:outer-over-app', 'shadow:outer-over-route', 'optout:slashes', 'optout:none',
                   'rebind:requested', 'redirect-under-prefix', 'error-through-outer-handler', 'reached-embedded-route',
-                  'factory:inner', 'factory:outer-fills-in', 'dup-unique-across-levels', 'both-rejected', 'prefix:root-slash']
+                  'factory:inner', 'factory:outer-fills-in', 'dup-unique-across-levels', 'both-rejected', 'prefix:root-slash', 'subclassed-middleware-type']
 NSHARDS = 16
 MODES = ['redirect', 'rewrite', 'strict']
 PATTERNS = ['/a', '/a/<x>', '/<x>', '/b/', '/c/<n:int>/', '/<p*>', '/a/b', '/d/<x>/']
@@ -55,6 +55,10 @@ class Gen(object):
             spec = {'label': label, 'type': 'T%d' % self.n_mw, 'unique': rng.chance(0.7),
                     'provides': (['p_' + label] if rng.chance(0.6) else []),
                     'wants': ([rng.pick(own_resources)] if own_resources and rng.chance(0.5) else [])}
+            if self.types and rng.chance(0.3):
+                # a *subclass* of a type used elsewhere: a different type for the uniqueness rule
+                b = rng.pick(self.types)
+                spec['base'], spec['base_unique'] = b['type'], b['unique']
             self.types.append(spec)
         return spec
 
@@ -156,7 +160,13 @@ def make_mw_instance(env, spec):
     from clastic import Middleware
     cls = env['types'].get(spec['type'])
     if cls is None:
-        cls = env['types'][spec['type']] = type(str(spec['type']), (Middleware,), {'unique': spec['unique']})
+        base = Middleware
+        if spec.get('base'):
+            base = env['types'].get(spec['base'])
+            if base is None:
+                base = env['types'][spec['base']] = type(str(spec['base']), (Middleware,), {'unique': spec.get('base_unique', True)})
+            env['subclassed'] = True
+        cls = env['types'][spec['type']] = type(str(spec['type']), (base,), {'unique': spec['unique']})
     inst = cls()
     inst.provides = tuple(spec['provides'])
     label, provides, wants = spec['label'], list(spec['provides']), list(spec['wants'])
@@ -445,6 +455,8 @@ def check_tree(sh, tree, rng, n_requests, record=True):
         return
     # bookkeeping of features
     note_features(sh, tree)
+    if env_n.get('subclassed'):
+        sh.hit('subclassed-middleware-type')
     prefixes = sorted(set(all_prefixes(tree)))
     reqs = []
     for _ in range(n_requests):
